@@ -3,3 +3,5 @@ import GIVerif.Model.AnnParse.Basic
 import GIVerif.Model.AnnParse.Tokenizer
 import GIVerif.Model.AnnParse.MessageLog
 import GIVerif.Model.AnnParse.Matchers
+import GIVerif.Model.AnnParse.Block
+import GIVerif.Model.AnnParse.Writer
